@@ -360,13 +360,29 @@ def rng(seed, salt=""):
     return random.Random("%s/%s" % (seed, salt))
 
 # ---------------------------------------------------------------- correspondence
+def run_model_sharded(runner, cases, name, timeout, shards=12):
+    """The extracted model is a pure function of one case line, so a large case list is evaluated by several
+    runner processes side by side; the output is the concatenation in case order (cut at the first shard that failed)."""
+    import concurrent.futures
+    per = (len(cases) + shards - 1) // shards
+    chunks = [cases[a:a + per] for a in range(0, len(cases), per)]
+    paths = [write_cases(c, "%s-model-%d.cases" % (name, i)) for i, c in enumerate(chunks)]
+    with concurrent.futures.ThreadPoolExecutor(max_workers=shards) as ex:
+        res = list(ex.map(lambda p: run_exe(runner, p, timeout=timeout), paths))
+    lines = []
+    for (rc, ls, err), c in zip(res, chunks):
+        lines += ls[:len(c)]
+        if rc != 0 or len(ls) != len(c):
+            return (rc if rc != 0 else 1), lines, err
+    return 0, lines, ""
+
 def correspond(rep, name, runner, impl_exe, cases, oracle=None, impl_env=None, timeout=900,
                model_filter=None, impl_args=()):
     """Run the extracted model and the implementation harness on the same case lines and diff.
     oracle(case_line, impl_line) -> None | (key, description): the property itself, evaluated on
     what the implementation did (independent of the model).  Returns stats dict."""
     path = write_cases(cases, name + ".cases")
-    rc_m, m_lines, m_err = run_exe(runner, path, timeout=timeout)
+    rc_m, m_lines, m_err = run_model_sharded(runner, cases, name, timeout) if len(cases) > 4000 else run_exe(runner, path, timeout=timeout)
     rc_i, i_lines, i_err = run_exe(impl_exe, path, timeout=timeout, env=impl_env, args=impl_args)
     stats = dict(name=name, cases=len(cases), agree=0, disagree=0, oracle_hits=0, impl_rc=rc_i)
     if rc_m != 0 or len(m_lines) != len(cases):
